@@ -1,9 +1,9 @@
 // Mutator-closure translator for C04 / C13 (stdlib only) — SEMANTIC version.
 //
-// A small abstract interpretation over go/ast of pkg/blockchain and pkg/consensus (recursively; tests, *_verif.go and generated
-// codec files excluded).  Abstract values of expressions:
+// A small abstract interpretation over go/ast of pkg/blockchain, pkg/consensus, pkg/engine and pkg/generator (recursively; tests,
+// *_verif.go and generated codec files excluded; engine and generator hold the handle as field `blockchainDB`).  Abstract values of expressions:
 //
-//	DB        the engine database handle: a selector whose field is `database` (c.database, d.database, …)
+//	DB        the engine database handle: a selector whose field is `database` or `blockchainDB` (c.database, g.blockchainDB, …)
 //	B<k>      the k-th batch created (X.NewBatch() on a DB) along the analysed path
 //	P<i>      the i-th parameter of the function under analysis
 //	Tip       the result of X.LastBlock()
@@ -63,6 +63,7 @@ type effect struct {
 	kind string // new | stage | write | direct | delcall
 	obj  aval
 	what string // for direct: description; for delcall: function containing the call
+	org  string // package directory of the function that syntactically contains the primitive
 }
 
 type fdecl struct {
@@ -191,6 +192,7 @@ var primitiveNames = map[string]bool{"NewBatch": true, "Set": true, "Del": true,
 	"RevertDiff": true, "deleteBlock": true, "reverter": true}
 
 type ctx struct {
+	org     string
 	tenv    map[string]string
 	env     map[string]aval
 	effects *[]effect
@@ -206,7 +208,7 @@ func (c *ctx) eval(e ast.Expr) aval {
 			return v
 		}
 	case *ast.SelectorExpr:
-		if x.Sel.Name == "database" {
+		if x.Sel.Name == "database" || x.Sel.Name == "blockchainDB" {
 			return aval{kind: "db"}
 		}
 	case *ast.ParenExpr:
@@ -230,7 +232,7 @@ func (c *ctx) eval(e ast.Expr) aval {
 				}
 				fmt.Fprintln(os.Stderr, "NEW via", strings.Join(names, " > "))
 			}
-			*c.effects = append(*c.effects, effect{kind: "new", obj: v})
+			*c.effects = append(*c.effects, effect{kind: "new", obj: v, org: c.org})
 			return v
 		}
 	}
@@ -240,14 +242,14 @@ func (c *ctx) eval(e ast.Expr) aval {
 func (c *ctx) emitStage(obj aval, what string) {
 	switch obj.kind {
 	case "db":
-		*c.effects = append(*c.effects, effect{kind: "direct", obj: obj, what: what})
+		*c.effects = append(*c.effects, effect{kind: "direct", obj: obj, what: what, org: c.org})
 	case "batch", "param":
-		*c.effects = append(*c.effects, effect{kind: "stage", obj: obj})
+		*c.effects = append(*c.effects, effect{kind: "stage", obj: obj, org: c.org})
 	}
 }
 
 func analyze(f *fdecl, args []aval, parent *ctx) {
-	c := &ctx{env: map[string]aval{}, tenv: map[string]string{}, effects: parent.effects, nbatch: parent.nbatch,
+	c := &ctx{org: f.rel, env: map[string]aval{}, tenv: map[string]string{}, effects: parent.effects, nbatch: parent.nbatch,
 		stack: append(append([]*fdecl{}, parent.stack...), f), batchAt: map[token.Pos]aval{}}
 	if f.d.Recv != nil && len(f.d.Recv.List) == 1 && len(f.d.Recv.List[0].Names) == 1 {
 		c.tenv[f.d.Recv.List[0].Names[0].Name] = recvType(f.d)
@@ -302,11 +304,11 @@ func analyze(f *fdecl, args []aval, parent *ctx) {
 				c.emitStage(rv, name+" on the database handle in "+f.full)
 			case "DropAll":
 				if rv.kind == "db" {
-					*c.effects = append(*c.effects, effect{kind: "direct", obj: rv, what: "DropAll in " + f.full})
+					*c.effects = append(*c.effects, effect{kind: "direct", obj: rv, what: "DropAll in " + f.full, org: c.org})
 				}
 			case "Write":
 				if rv.kind == "db" && len(x.Args) == 1 {
-					*c.effects = append(*c.effects, effect{kind: "write", obj: c.eval(x.Args[0]), what: f.full})
+					*c.effects = append(*c.effects, effect{kind: "write", obj: c.eval(x.Args[0]), what: f.full, org: c.org})
 				}
 			case "Commit", "RevertDiff":
 				if len(x.Args) > 0 {
@@ -369,7 +371,7 @@ func main() {
 	out := flag.String("out", "", "output .v file")
 	flag.Parse()
 	fset := token.NewFileSet()
-	for _, root := range []string{"pkg/blockchain", "pkg/consensus"} {
+	for _, root := range []string{"pkg/blockchain", "pkg/consensus", "pkg/engine", "pkg/generator"} {
 		err := filepath.Walk(filepath.Join(*repo, root), func(path string, info os.FileInfo, err error) error {
 			if err != nil {
 				return err
@@ -515,6 +517,7 @@ func main() {
 
 	// ---- (a) global, (c) origin of the blocks handed to deleteBlock
 	nWrite := 0
+	outside := map[string]bool{} // pkg/engine, pkg/generator hold the engine database handle (field blockchainDB): they must only read it
 	directAll := map[string]bool{}
 	delCalls, delBad := 0, []string{}
 	for _, f := range funcs {
@@ -522,6 +525,9 @@ func main() {
 			continue
 		}
 		for _, e := range rootAnalyze(f) {
+			if (strings.HasPrefix(e.org, "engine") || strings.HasPrefix(e.org, "generator")) && (e.kind == "new" || e.kind == "write" || e.kind == "direct" || (e.kind == "stage" && e.obj.kind == "batch")) {
+				outside[e.org+" (reached from "+f.full+") "+e.kind] = true
+			}
 			switch e.kind {
 			case "direct":
 				directAll[e.what] = true
@@ -553,6 +559,11 @@ func main() {
 	}
 	sort.Strings(dl)
 	sort.Strings(delBad)
+	ol := []string{}
+	for k := range outside {
+		ol = append(ol, k)
+	}
+	sort.Strings(ol)
 	if nWrite == 0 || delCalls == 0 {
 		fmt.Fprintln(os.Stderr, "mutators: no database.Write / deleteBlock call found (fail closed)")
 		os.Exit(2)
@@ -564,8 +575,9 @@ func main() {
 	sb.WriteString("(* per exported step, callees inlined: batches created, objects staged into, durable commits, direct writes *)\n")
 	sb.WriteString("Definition found_steps : list (string * string) := [\n" + strings.Join(stepLines, ";\n") + "\n].\n\n")
 	sb.WriteString("(* whole packages: database.Write call sites; direct writes (also through a parameter bound to the database handle) *)\n")
-	fmt.Fprintf(&sb, "Definition found_global : list string := [\n  %s;\n  %s\n].\n\n", q(fmt.Sprintf("database.Write call sites: %d", nWrite)),
-		q("direct database writes: ["+strings.Join(dl, " | ")+"]"))
+	fmt.Fprintf(&sb, "Definition found_global : list string := [\n  %s;\n  %s;\n  %s\n].\n\n", q(fmt.Sprintf("database.Write call sites: %d", nWrite)),
+		q("direct database writes: ["+strings.Join(dl, " | ")+"]"),
+		q("batches / commits / writes on the engine database from pkg/engine or pkg/generator: ["+strings.Join(ol, " | ")+"]"))
 	sb.WriteString("(* every block handed to deleteBlock / reverter originates from LastBlock() (local assignments and helper parameters followed) *)\n")
 	fmt.Fprintf(&sb, "Definition found_delete_origin : list string := [\n  %s\n].\n", q("block arguments not originating from LastBlock(): ["+strings.Join(delBad, " | ")+"]"))
 	if *out == "" {
